@@ -836,7 +836,194 @@ theorem uninitialised_keyError (progs : List Prog) (pid name : Nat) :
   unfold St.locate
   cases (findProg (mkSt [] progs).progs pid).bind (resolve · name) with
   | none => rfl
-  | some d => simp [mkSt, initMaps, St.array]
+  | some d => simp [mkSt, mkStFrom, initMaps, St.array]
+
+/-! ### histories: a layout does not depend on what the instances held before
+
+`collect` is run every time an object is created, on instances that may have been laid out before (a
+subprogram / device handed to a second program or group, a second object of the same class, a restart
+with other subprograms).  Whatever the `__dict__`s held, every variable the new object collects ends at the
+position of a layout computed from scratch; variables it does not collect keep theirs. -/
+
+theorem Dicts.get_cons (σ : Dicts) (k k' : Key) (p : Nat) :
+    Dicts.get ((k', p) :: σ) k = if k' = k then some p else Dicts.get σ k := by
+  unfold Dicts.get
+  by_cases h : k' = k <;> simp [List.find?_cons, h]
+
+theorem writeAll_get (pl : List (Triple × Nat)) : ∀ (σ : Dicts) (k : Key),
+    (writeAll σ pl).get k = match lookupLast k pl with | some q => some q | none => σ.get k := by
+  induction pl with
+  | nil => intro σ k; simp [writeAll, lookupLast]
+  | cons x xs ih =>
+    intro σ k
+    obtain ⟨t, p⟩ := x
+    simp only [writeAll, lookupLast]
+    rw [ih]
+    cases lookupLast k xs with
+    | some q => rfl
+    | none =>
+      simp only [Dicts.get_cons]
+      by_cases h : t.key = k <;> simp [h]
+
+/-- **one `collect`, any past**: a collected variable gets the position of the fresh layout, any other
+entry of any `__dict__` stays -/
+theorem collectInto_get (σ : Dicts) (m : Nat) (progs : List Prog) (k : Key) :
+    (collectInto σ m progs).get k =
+      match positionOf (triples m progs) k with | some q => some q | none => σ.get k :=
+  writeAll_get _ σ k
+
+/-- what `__init__` leaves for a key: the position given by the last discovered map that collects it -/
+def lastPos (found : List MapAttr) (progs : List Prog) (k : Key) (init : Option Nat) : Option Nat :=
+  found.foldl (fun acc a => match positionOf (triples a.map progs) k with | some q => some q | none => acc) init
+
+theorem collectAll_get (found : List MapAttr) (progs : List Prog) (k : Key) : ∀ (σ : Dicts),
+    (collectAll σ found progs).get k = lastPos found progs k (σ.get k) := by
+  induction found with
+  | nil => intro σ; rfl
+  | cons a as ih =>
+    intro σ
+    simp only [collectAll, lastPos, List.foldl_cons]
+    have := ih (collectInto σ a.map progs)
+    simp only [collectAll, lastPos] at this
+    rw [this, collectInto_get]
+
+theorem lastPos_free (found : List MapAttr) (progs : List Prog) (k : Key)
+    (h : ∃ a ∈ found, (positionOf (triples a.map progs) k).isSome) :
+    ∀ (i₁ i₂ : Option Nat), lastPos found progs k i₁ = lastPos found progs k i₂ := by
+  induction found with
+  | nil => obtain ⟨a, ha, _⟩ := h; cases ha
+  | cons a as ih =>
+    intro i₁ i₂
+    simp only [lastPos, List.foldl_cons]
+    cases hp : positionOf (triples a.map progs) k with
+    | some q => rfl
+    | none =>
+      obtain ⟨b, hb, hs⟩ := h
+      rcases List.mem_cons.1 hb with rfl | hb
+      · rw [hp] at hs; cases hs
+      · exact ih ⟨b, hb, hs⟩ i₁ i₂
+
+theorem lastPos_none (found : List MapAttr) (progs : List Prog) (k : Key)
+    (h : ∀ a ∈ found, positionOf (triples a.map progs) k = none) (i : Option Nat) : lastPos found progs k i = i := by
+  induction found with
+  | nil => rfl
+  | cons a as ih =>
+    simp only [lastPos, List.foldl_cons, h a List.mem_cons_self]
+    exact ih (fun b hb => h b (List.mem_cons_of_mem _ hb))
+
+/-- **collect_history_free**: for every variable the new object collects, the position after `__init__` is the
+same whatever any `__dict__` held before - in particular the one of the first object of a process (`σ₂ = []`) -/
+theorem collect_history_free (σ₁ σ₂ : Dicts) (found : List MapAttr) (progs : List Prog) (k : Key)
+    (h : ∃ a ∈ found, (positionOf (triples a.map progs) k).isSome) :
+    (collectAll σ₁ found progs).get k = (collectAll σ₂ found progs).get k := by
+  rw [collectAll_get, collectAll_get]
+  exact lastPos_free found progs k h _ _
+
+/-- **collect_frame**: a variable the new object does not collect keeps the position it had -/
+theorem collect_frame (σ : Dicts) (found : List MapAttr) (progs : List Prog) (k : Key)
+    (h : ∀ a ∈ found, positionOf (triples a.map progs) k = none) :
+    (collectAll σ found progs).get k = σ.get k := by
+  rw [collectAll_get]; exact lastPos_none found progs k h _
+
+theorem dedupGo_sub (ps : List Prog) (seen : List Nat) : ∀ p ∈ dedupGo ps seen, p ∈ ps := by
+  induction ps generalizing seen with
+  | nil => intro p hp; cases hp
+  | cons x xs ih =>
+    intro p hp
+    unfold dedupGo at hp
+    split at hp
+    · exact List.mem_cons_of_mem _ (ih seen p hp)
+    · rcases List.mem_cons.1 hp with rfl | hp
+      · exact List.mem_cons_self
+      · exact List.mem_cons_of_mem _ (ih _ p hp)
+
+/-- only instances listed for the object are collected -/
+theorem positionOf_prog (m : Nat) (progs : List Prog) (k : Key) (h : (positionOf (triples m progs) k).isSome) :
+    ∃ q ∈ progs, q.id = k.1 := by
+  cases hp : positionOf (triples m progs) k with
+  | none => rw [hp] at h; cases h
+  | some p =>
+    obtain ⟨t, hm, hk⟩ := lookupLast_mem k _ p hp
+    have ht : t ∈ triples m progs := (mem_sortDesc t _).1 (mem_place_fst hm)
+    obtain ⟨q, hq, htq⟩ := List.mem_flatMap.1 ht
+    have := ((classTriplesGo_spec m q.id q.mro.flatten []).1 t htq).1
+    exact ⟨q, dedupGo_sub progs [] q hq, by rw [← hk, ← this]; rfl⟩
+
+/-- every map of the object, laid out from scratch -/
+def freshPos (o : NewObj) (k : Key) : Option Nat := (collectAll [] o.found o.progs).get k
+
+def _root_.Ebv.Collect.NewObj.collects (o : NewObj) (k : Key) : Prop := ∃ a ∈ o.found, (positionOf (triples a.map o.progs) k).isSome
+
+theorem runNews_frame (os : List NewObj) (k : Key) (h : ∀ o ∈ os, ∀ q ∈ o.progs, q.id ≠ k.1) :
+    ∀ (σ : Dicts), (runNews σ os).get k = σ.get k := by
+  induction os with
+  | nil => intro σ; rfl
+  | cons o os ih =>
+    intro σ
+    simp only [runNews]
+    rw [ih (fun o' ho' => h o' (List.mem_cons_of_mem _ ho'))]
+    apply collect_frame
+    intro a _
+    cases hp : positionOf (triples a.map o.progs) k with
+    | none => rfl
+    | some p =>
+      obtain ⟨q, hq, he⟩ := positionOf_prog a.map o.progs k (by rw [hp]; rfl)
+      exact absurd he (h o List.mem_cons_self q hq)
+
+theorem runNews_append (a b : List NewObj) : ∀ (σ : Dicts), runNews σ (a ++ b) = runNews (runNews σ a) b := by
+  induction a with
+  | nil => intro σ; rfl
+  | cons o os ih => intro σ; simp only [List.cons_append, runNews]; exact ih _
+
+/-- **history_layout**: in any history of object creations - any objects before, any number after, any sharing of
+instances with the earlier ones - an object none of whose instances is listed again later has every variable it
+collected exactly where a layout from scratch puts it.  (With `collect_disjoint`: its variables have bytes of
+their own, however the process got there.) -/
+theorem history_layout (σ : Dicts) (before after : List NewObj) (o : NewObj) (k : Key) (hk : o.collects k)
+    (hlater : ∀ o' ∈ after, ∀ q' ∈ o'.progs, ∀ q ∈ o.progs, q'.id ≠ q.id) :
+    (runNews σ (before ++ o :: after)).get k = freshPos o k := by
+  rw [runNews_append]
+  simp only [runNews]
+  obtain ⟨a, ha, hs⟩ := hk
+  obtain ⟨q, hq, he⟩ := positionOf_prog a.map o.progs k hs
+  rw [runNews_frame after k (fun o' ho' q' hq' => by rw [← he]; exact hlater o' ho' q' hq' q hq)]
+  exact collect_history_free _ [] o.found o.progs k ⟨a, ha, hs⟩
+
+/-- with one map (a `ProcessSyncGroup`'s `properties`, a program with one array map) the position is `positionOf` -/
+theorem freshPos_single (a : MapAttr) (progs : List Prog) (k : Key) :
+    freshPos ⟨[a], progs⟩ k = positionOf (triples a.map progs) k := by
+  unfold freshPos
+  rw [collectAll_get]
+  simp only [lastPos, List.foldl_cons, List.foldl_nil, Dicts.get, List.find?_nil, Option.map_none]
+  cases positionOf (triples a.map progs) k <;> rfl
+
+/-- creating an object in a world is such a creation -/
+theorem create_dicts (w : World) (main : Nat) (found : List MapAttr) (progs : List Prog) :
+    (w.create main found progs).dicts = collectAll w.dicts found progs := rfl
+
+/-- Python-side writes and reads never touch a `__dict__` -/
+theorem pySet_dicts (w w' : World) (pid name : Nat) (vs : List Int) (h : w.pySet pid name vs = .ok w') :
+    w'.dicts = w.dicts := by
+  unfold World.pySet at h
+  cases ho : w.objOf pid with
+  | none => rw [ho] at h; cases h
+  | some o =>
+    rw [ho] at h
+    simp only [World.setWith] at h
+    cases hs : (w.view o).step (.pySet pid name vs) with
+    | error e => rw [hs] at h; cases h
+    | ok s' =>
+      rw [hs] at h
+      simp only [Except.map] at h
+      injection h with h
+      rw [← h]; rfl
+
+/-- the seeded scenario on the model: device 1 (`I`) laid out alone, then in a group behind device 2 (`Q`):
+it moves to offset 8 instead of keeping its stale 0 (where device 2's variable now is) -/
+example : (runNews [] [⟨[⟨0, 0⟩], [⟨1, [[⟨0, 0, .arr false 1 .I⟩]]⟩]⟩,
+    ⟨[⟨0, 0⟩], [⟨2, [[⟨0, 0, .arr false 1 .Q⟩]]⟩, ⟨1, [[⟨0, 0, .arr false 1 .I⟩]]⟩]⟩]).get (1, 0) = some 8 := by decide
+example : (runNews [] [⟨[⟨0, 0⟩], [⟨1, [[⟨0, 0, .arr false 1 .I⟩]]⟩]⟩,
+    ⟨[⟨0, 0⟩], [⟨2, [[⟨0, 0, .arr false 1 .Q⟩]]⟩, ⟨1, [[⟨0, 0, .arr false 1 .I⟩]]⟩]⟩]).get (2, 0) = some 0 := by decide
 
 /-! ### non-vacuity: concrete inputs satisfy the hypotheses -/
 
